@@ -36,6 +36,7 @@ from .fortran_funcs import fortran_funcs
 from ..parser import replace
 
 # external _imports
+import re
 import subprocess
 import hashlib
 import importlib
@@ -56,6 +57,11 @@ __status__ = "development"
 # backend classes
 #################
 
+
+# a float literal that is not part of a name, an index or an already converted literal (1.5, .5, 2., 1.0e-5)
+_FLOAT_LITERAL = re.compile(r'(?<![\w.])((?:\d+\.\d*|\.\d+)((?:[eE][-+]?\d+)?))(?![\w.])')
+# a quotient of two integer literals standing for a rational constant (not the tail of a product or power: a*7/2 is real)
+_INT_QUOTIENT = re.compile(r'(?<![\w.*/)\]])(\d+)/(\d+)(?![\w.(\[])')
 
 class FortranBackend(BaseBackend):
 
@@ -348,6 +354,11 @@ class FortranBackend(BaseBackend):
 
     @staticmethod
     def expr_to_str(expr: str, args: tuple):
+
+        # numeric literals of an equation are double-precision reals: sympy prints a rational constant as `7/2`
+        # (INTEGER division in Fortran: 3; `x**(1/3)` is x**0) and a float as `0.1` (a single-precision literal)
+        expr = _FLOAT_LITERAL.sub(lambda m: m.group(1).replace('e', 'd').replace('E', 'd') + ('' if m.group(2) else 'd0'), expr)
+        expr = _INT_QUOTIENT.sub(r'\1.0d0/\2.0d0', expr)
 
         func = 'cshift('
         if func in expr:
